@@ -99,7 +99,9 @@ StringDictionaryRPHTFC::StringDictionaryRPHTFC(IteratorDictString *it,
     pbeg++;
     bucket++;
 
-    if ((ptrpdict + (size_t)(bucketsize * maxlength)) > reservedInts)
+    // Every byte of the internal strings is copied and each string gets one
+    // additional separator
+    while ((ptrpdict + (pend - pbeg) + bucketsize) > reservedInts)
       reservedInts = Reallocate(&rpdict, reservedInts);
 
     // Stores the last position with 0 to avoid confusions with 0 values
